@@ -983,10 +983,16 @@ class WebSocketProtocol13(WebSocketProtocol):
 
         'key' is the websocket handshake challenge/response key.
         """
-        assert headers["Upgrade"].lower() == "websocket"
-        assert headers["Connection"].lower() == "upgrade"
+        # These checks must not be asserts: they have to hold under "python -O" too.
+        if headers.get("Upgrade", "").lower() != "websocket":
+            raise WebSocketError("Missing or invalid Upgrade header in handshake response")
+        if headers.get("Connection", "").lower() != "upgrade":
+            raise WebSocketError(
+                "Missing or invalid Connection header in handshake response"
+            )
         accept = self.compute_accept_value(key)
-        assert headers["Sec-Websocket-Accept"] == accept
+        if headers.get("Sec-Websocket-Accept") != accept:
+            raise WebSocketError("Invalid Sec-WebSocket-Accept in handshake response")
 
         extensions = self._parse_extensions_header(headers)
         for ext in extensions:
@@ -1440,6 +1446,7 @@ class WebSocketClientConnection(simple_httpclient._HTTPConnection):
                 "Sec-WebSocket-Version": "13",
             }
         )
+        self._subprotocols = subprotocols
         if subprotocols is not None:
             request.headers["Sec-WebSocket-Protocol"] = ",".join(subprotocols)
         if compression_options is not None:
@@ -1532,6 +1539,11 @@ class WebSocketClientConnection(simple_httpclient._HTTPConnection):
         self.headers = headers
         self.protocol = self.get_websocket_protocol()
         self.protocol._process_server_headers(self.key, self.headers)
+        selected = self.protocol.selected_subprotocol
+        if selected is not None and selected not in (self._subprotocols or []):
+            raise WebSocketError(
+                "Server selected a subprotocol that was not offered: %r" % selected
+            )
         self.protocol.stream = self.connection.detach()
 
         IOLoop.current().add_callback(self.protocol._receive_frame_loop)
